@@ -212,7 +212,9 @@ pub fn gen8(rng: &mut Rng) -> Scn8 {
         Budget::TokenBucket { max, initial: rng.range(0, max as u64) as u32 }
     } else {
         let max = rng.range(1, 6) as u32;
-        Budget::Aimd { min: rng.range(0, 1).min(max as u64) as u32, max, deposit: rng.range(1, 2) as u32, withdraw: rng.range(1, 3) as u32, factor_eighths: *rng.pick(&[0u32, 4, 6, 8]) }
+        // (one budget in three has its floor anywhere up to the maximum)
+        let min = if rng.chance(1, 3) { rng.range(0, max as u64) as u32 } else { rng.range(0, 1).min(max as u64) as u32 };
+        Budget::Aimd { min, max, deposit: rng.range(1, 2) as u32, withdraw: rng.range(1, 3) as u32, factor_eighths: *rng.pick(&[0u32, 4, 6, 8]) }
     };
     let nt = rng.range(2, 4) as usize;
     let threads = (0..nt)
